@@ -55,6 +55,22 @@ def _resolve(exprs, varid2key):
     return order, deps
 
 
+def _depends(e, var):
+    vid = var.get_id()
+    seen = set()
+    stack = [e]
+    while stack:
+        x = stack.pop()
+        i = x.get_id()
+        if i in seen:
+            continue
+        seen.add(i)
+        if i == vid:
+            return True
+        stack.extend(x.children())
+    return False
+
+
 class Comparison:
     def __init__(self, top, ios, name="top", rst_low=False):
         from litex.gen.fhdl.verilog import convert
@@ -158,6 +174,58 @@ class Comparison:
             sem.run(blk, p, env)
             vexpr.update(p)
         var2key = {env[n].get_id(): n for n in env}
+        # A net whose always @(*) block reads the net itself before (or without) assigning it: IEEE semantics = re-evaluate until stable.
+        # The block's own result is substituted for the old value (fix-point iteration, bounded); if the dependence never goes away the
+        # bits that no path assigns keep their value: an inferred LATCH.  Its remembered value becomes a free variable (any earlier value),
+        # so the comparison with the (stateless) simulation of the same signal fails exactly when that value can be observed.
+        self.latches = []
+        self.latch_vars = []
+        self.latch_cons = []
+        nkeys = {}
+        for n_ in env:
+            if isinstance(env[n_], z3.BitVecRef):
+                nkeys[env[n_].get_id()] = nkeys.get(env[n_].get_id(), 0) + 1
+        for k in list(vexpr):
+            if k not in env or not isinstance(env[k], z3.BitVecRef) or not z3.is_const(env[k]):
+                continue
+            if nkeys.get(env[k].get_id(), 0) > 1:
+                continue        # the variable also stands for a mapped state element (memory port register): an alias, not a self-reference
+            vk = env[k]
+            fk = vexpr[k]
+            if not _depends(fk, vk):
+                continue
+            cur = fk
+            for it in range(6):
+                cur = z3.simplify(z3.substitute(cur, (vk, fk)))
+                if not _depends(cur, vk):
+                    break
+            if _depends(cur, vk):
+                # still syntactically dependent: decide semantically whether the remembered value can influence the result at all
+                l1 = z3.BitVec("v$latch$%s" % (k,), vk.size())
+                l2 = z3.BitVec("v$latch2$%s" % (k,), vk.size())
+                sl = z3.Solver()
+                sl.set("timeout", 20000)
+                sl.add(z3.substitute(cur, (vk, l1)) != z3.substitute(cur, (vk, l2)))
+                rl = str(sl.check())
+                if rl == "unsat":
+                    cur = z3.simplify(z3.substitute(cur, (vk, z3.BitVecVal(0, vk.size()))))
+                elif rl == "sat":
+                    cur = z3.substitute(cur, (vk, l1))
+                    self.latches.append(k)
+                    self.latch_vars.append(l1)
+                    # bits that NO path assigns keep their declared initial value for ever: constrain those bits of the remembered value
+                    dk = mod["nets"].get(k) if isinstance(k, str) else None
+                    if dk is not None and dk.get("init") is not None:
+                        iv = z3.simplify(sem.rhs(dk["init"], dk["w"], {})).as_long()
+                        for bit in range(vk.size()):
+                            sb = z3.Solver()
+                            sb.set("timeout", 5000)
+                            sb.add(z3.Extract(bit, bit, cur) != z3.Extract(bit, bit, l1))
+                            if str(sb.check()) == "unsat":
+                                self.latch_cons.append(z3.Extract(bit, bit, l1) == ((iv >> bit) & 1))
+                else:
+                    raise Unsupported("cannot decide whether %r infers a latch" % (k,))
+            vexpr[k] = cur
         order, deps = _resolve(vexpr, var2key)
         vres = {}
         for n in order:
@@ -217,6 +285,7 @@ class Comparison:
         solver = z3.Solver()
         solver.set("timeout", timeout_ms)
         solver.add(*self.base)
+        solver.add(*self.latch_cons)
         ncomb = nreg = 0
         unknown = 0
 
@@ -294,7 +363,7 @@ class Comparison:
             v = state.get(s, inp.get(s))
             if v is not None and s not in tr.comb_targets:
                 sub.append((tr.cur[s], z3.BitVecVal(v, len(s))))
-        for n, var in list(self.env.items()) + [(None, x) for x in self.sem.xvars]:
+        for n, var in list(self.env.items()) + [(None, x) for x in self.sem.xvars] + [(None, x) for x in getattr(self, "latch_vars", [])]:
             if isinstance(var, z3.BitVecRef) and var.decl().name().startswith("v$"):
                 sub.append((var, z3.BitVecVal(vals.get(var.decl().name(), 0), var.size())))
         s = div["sig"]
